@@ -13,12 +13,21 @@ rm -rf "$work"; mkdir -p "$work"
 mkdir -p "$wt" && cp -r /repo/calgebra "$wt/calgebra"      # (a plain copy of the sources: /repo is not touched)
 cleanup() { rm -rf "$work"; }
 trap cleanup EXIT
+base=/repo; note=""
 if ! (cd "$wt" && git apply --unsafe-paths "$patch" 2>"$work/apply.err"); then
-  echo "$name | PATCH DOES NOT APPLY to /repo HEAD: $(head -1 "$work/apply.err")"; exit 3
+  # written against an earlier commit of /repo: try HEAD~1, HEAD~2 (the comparison is then with that commit)
+  ok=0
+  for back in 1 2 3; do
+    rm -rf "$wt" "$work/base"; mkdir -p "$wt" "$work/base"
+    git -C /repo archive "HEAD~$back" calgebra | tar -x -C "$wt"
+    git -C /repo archive "HEAD~$back" calgebra | tar -x -C "$work/base"
+    if (cd "$wt" && git apply --unsafe-paths "$patch" 2>"$work/apply.err"); then ok=1; base="$work/base"; note=" [against /repo HEAD~$back]"; break; fi
+  done
+  if [ $ok = 0 ]; then echo "$name | PATCH DOES NOT APPLY: $(head -1 "$work/apply.err")"; exit 3; fi
 fi
 cp -r "$here/coq" "$work/coq"
 cd "$here"
-PYTHONPATH="$here" /venv/bin/python - "$wt" "$work/coq" <<'PY' > "$work/summary.txt"
+PYTHONPATH="$here" /venv/bin/python - "$wt" "$work/coq" "$base" <<'PY' > "$work/summary.txt"
 import re, sys
 from pathlib import Path
 from harness.translate import srcspecs, pysrc
@@ -29,7 +38,7 @@ def defs(text):
         if m:
             out[m.group(1)] = re.split(r"\n\(\* \w+: NOT TRANSLATED", blk.split("\n", 1)[1])[0].strip()
     return out
-base, _ = pysrc.translate_all(Path("/repo"), srcspecs.SPECS, srcspecs.HEADER)
+base, _ = pysrc.translate_all(Path(sys.argv[3]), srcspecs.SPECS, srcspecs.HEADER)
 mut, errors = pysrc.translate_all(Path(sys.argv[1]), srcspecs.SPECS, srcspecs.HEADER)
 (Path(sys.argv[2]) / "Gen" / "Source.v").write_text(mut)
 b, m = defs(base), defs(mut)
@@ -43,7 +52,7 @@ cd "$work/coq"
 C="timeout 900 coqc -Q . CG -w -notation-overridden,-deprecated-hint-without-locality,-deprecated-syntactic-definition"
 broken=""
 if [ "$changed" = "-" ] && [ "$absent" = "-" ]; then
-  echo "$name | - | - | (generated text identical: the change is outside the translated functions)"; exit 0
+  echo "$name$note | - | - | (generated text identical: the change is outside the translated functions)"; exit 0
 fi
 if ! $C Gen/Source.v >/dev/null 2>&1; then broken="Gen/Source.v(!)"; fi
 for n in "" 2 3 4 5 6 7 8 9 10 11 12; do
@@ -51,4 +60,4 @@ for n in "" 2 3 4 5 6 7 8 9 10 11 12; do
   [ -f "$f" ] || continue
   if ! $C "$f" >"$work/out.txt" 2>&1; then broken="$broken GenEq$n"; fi
 done
-echo "$name | $changed | $absent | ${broken:-NONE (the proofs still go through)}"
+echo "$name$note | $changed | $absent | ${broken:-NONE (the proofs still go through)}"
